@@ -70,7 +70,7 @@ def run(ctx: fw.Ctx):
                     ctx.fail({"clause": "edit-mutated"}, {**inp, "op": list(op)}, f"refused {op!r} changed the raw document")
             if n % 7 == 0:
                 hists.append(ec.run_real(t, [("set", "a", "1"), ("rm", "a")], dict(info, cls="erroneous")))
-            if n % 40 == 0:
+            if n % 40 == 0 or info.get("template") == "non-nix":
                 cli_inputs.append(t)
         # the same text as VALUE of a set
         kids = [c for c in root.named_children if c.type != "comment"]
@@ -92,7 +92,8 @@ def run(ctx: fw.Ctx):
             ctx.fail({"clause": "value-exception-class", "exc": type(exc).__name__}, {"doc": base, "value": t},
                      f"VALUE {t!r} raised {type(exc).__name__}: {exc}")
     ec.correspond(ctx, hists)
-    cli_test(ctx, cli_inputs[: (24 if ctx.quick else 300)])
+    cli_inputs.sort(key=lambda t: 0 if any(ord(c) > 127 or ord(c) < 32 and c not in "\n\t" for c in t) else 1)
+    cli_test(ctx, cli_inputs[: (40 if ctx.quick else 300)])
 
 
 def cli_test(ctx: fw.Ctx, texts):
